@@ -34,7 +34,7 @@ PROP = {
         {"mon": "mon_c10", "cfg": "asan_big", "cases": _q(40000, 1200000), "args": ["--mode", "hostile"] + _BIG, "seed_off": 11},
         {"mon": "mon_c10", "cfg": "asan_z", "cases": _q(20000, 600000), "args": ["--mode", "hostile"] + _SMALL, "seed_off": 22},
         # boolean operations (mostly into a PolyTree) on degenerate rectilinear lattice scenes: microseconds each
-        {"mon": "mon_c10", "cfg": "asan", "cases": _q(240000, 6000000), "args": ["--mode", "lattice"] + _SMALL, "seed_off": 66},
+        {"mon": "mon_c10", "cfg": "asan", "cases": _q(400000, 8000000), "args": ["--mode", "lattice"] + _SMALL, "seed_off": 66},
         {"mon": "mon_c10", "cfg": "asan_bigz", "cases": _q(10000, 300000), "args": ["--mode", "hostile"] + _BIG, "seed_off": 33},
         {"mon": "mon_c10", "cfg": "asan_big", "cases": _q(2500, 60000), "args": ["--mode", "oom"] + _BIG, "seed_off": 44,
          "env": {"ASAN_OPTIONS": "detect_leaks=0"}},
